@@ -3,6 +3,7 @@
 package main
 
 import (
+	"os"
 	"fmt"
 	"sort"
 	"go/ast"
@@ -269,6 +270,9 @@ type fctx struct {
 	applyops map[string]opq          // printed callee -> length-preserving keyed transformation written into the destination
 	closureLits map[types.Object]*ast.FuncLit // all local procedures of the definition (static)
 	closures map[types.Object]*ast.FuncLit // local procedures `f := func(…) {…}` (no results): calls are inlined
+	consumed map[types.Object]bool   // abstract objects behind pointers handed to a translated callee (which may change them): no read before the next assignment
+	errBool  map[types.Object]bool   // error variables kept as "is an error" Booleans (Option mode)
+	stepops  map[string]opq          // printed callee X.m -> function (object, args…) ↦ results… × object
 	mutops   map[string]opq          // printed callee X.m -> function (object, args…) ↦ object: X.m(args) updates the abstract object X
 	inouts   map[string]opq          // printed callee -> function (window content, args…) ↦ Option (new window content = returned slice)
 	fillops  map[string]opq          // printed callee -> source of fresh bytes written into the destination
@@ -313,7 +317,7 @@ func newFctx(name string, opaque []opq) *fctx {
 	f := &fctx{name: name, env: map[types.Object]string{}, pvars: map[string]*types.Var{}, count: map[string]int{},
 		alias: map[types.Object][]types.Object{}, opaque: map[string]opq{}, errVars: map[types.Object]bool{},
 		blockops: map[string]opq{}, abstract: map[string]bool{}, objRoots: map[types.Object][]*types.Var{},
-		applyops: map[string]opq{}, fillops: map[string]opq{}, inouts: map[string]opq{}, mutops: map[string]opq{}, closures: map[types.Object]*ast.FuncLit{}, closureLits: map[types.Object]*ast.FuncLit{}, ctors: map[string]int{}, views: map[types.Object]*view{},
+		applyops: map[string]opq{}, fillops: map[string]opq{}, inouts: map[string]opq{}, mutops: map[string]opq{}, stepops: map[string]opq{}, errBool: map[types.Object]bool{}, consumed: map[types.Object]bool{}, closures: map[types.Object]*ast.FuncLit{}, closureLits: map[types.Object]*ast.FuncLit{}, ctors: map[string]int{}, views: map[types.Object]*view{},
 		viewRoot: map[types.Object]types.Object{}, viewVars: map[types.Object][2]*types.Var{},
 		externRead: map[string]bool{}, externValue: map[string]bool{}, typeOverride: map[types.Object]string{},
 		order: map[types.Object]int{}, rootCanon: map[types.Object]string{}, goParams: map[string]string{}, legacyOf: map[string]string{}}
@@ -502,6 +506,9 @@ func (t *tr) expr(e ast.Expr) string {
 		}
 		if vw, ok := t.f.views[obj]; ok {
 			return fmt.Sprintf("(GoSem.slice %s %s %s)", t.f.env[vw.root], t.f.env[vw.lo], t.f.env[vw.hi])
+		}
+		if t.f.consumed[obj] {
+			return t.fail(e, "%s is read after it was handed to a callee that may change it", x.Name)
 		}
 		if v, ok := t.f.env[obj]; ok {
 			return v
@@ -712,6 +719,21 @@ func (t *tr) cond(e ast.Expr) string {
 						}
 						return s
 					}
+				}
+			}
+			if !t.f.stateful && (x.Op == token.EQL || x.Op == token.NEQ) {
+				isNilId := func(e ast.Expr) bool { id, ok := e.(*ast.Ident); return ok && id.Name == "nil" }
+				var ev ast.Expr
+				if isNilId(x.Y) {
+					ev = x.X
+				} else if isNilId(x.X) {
+					ev = x.Y
+				}
+				if id, ok := ev.(*ast.Ident); ok && t.f.errBool[t.objOf(id)] {
+					if x.Op == token.NEQ {
+						return "(" + t.f.env[t.objOf(id)] + " = true)"
+					}
+					return "(" + t.f.env[t.objOf(id)] + " = false)"
 				}
 			}
 			if t.f.stateful && (x.Op == token.EQL || x.Op == token.NEQ) {
@@ -981,6 +1003,9 @@ func (t *tr) calleeKeys(c *ast.CallExpr) []string {
 
 // ck: the flag pattern that names this call's callee (the printed source if no flag does)
 func (t *tr) ck(c *ast.CallExpr) string {
+	if os.Getenv("GLUETR_KEYS") != "" {
+		fmt.Fprintf(os.Stderr, "KEYS %v\n", t.calleeKeys(c))
+	}
 	if t.f != nil && len(t.f.patterns) > 0 {
 		for _, k := range t.calleeKeys(c) {
 			for _, p := range t.f.patterns {
@@ -1208,6 +1233,13 @@ func (t *tr) callSig(name string, sg *fsig, c *ast.CallExpr) string {
 			return t.fail(c, "call arity of %s", name)
 		}
 		args = append(args, t.expr(c.Args[next]))
+		if id, ok := c.Args[next].(*ast.Ident); ok {
+			if _, isPtr := t.typeOf(id).(*types.Pointer); isPtr {
+				if k, _ := classify(t.typeOf(id)); k == kAbs && t.objOf(id) != nil {
+					defer func(o types.Object) { t.f.consumed[o] = true }(t.objOf(id))
+				}
+			}
+		}
 		next++
 	}
 	if next != len(c.Args) {
